@@ -172,12 +172,14 @@ def check(rep):
     for _ in range(300 if quick else 20000):
         d = tg.bd()
         run("descriptor", lambda x: BondDescriptor(x, 0, d[1], 0), dump_descr, "[" + d[2] + d[3] + d[4] + "]", False)
+    for t in ["[$||]", "[<1| |]", "[>|0|]", "[$12|1e1 .5|]", "[$|1_0|]"]:
+        run("descriptor", lambda x: BondDescriptor(x, 0, "", 0), dump_descr, t, False, source="probe")
     for _ in range(600 if quick else 40000):
         run("token", lambda x: SmilesToken(x, 0, 0), lambda t: dump_token(t), tokast.print_chain(tg.token()), False)
     # molecules of every archetype + whitespace / number-format variants
     mg = molast.MolGenAst(rnd)
-    mols = [(a, t, s) for a, t, s in gi.cases(rnd.randrange(1 << 30), 260 if quick else 15000) if a != "defective_list"]
-    mols += [("molast", mg.molecule()[0], rnd.randrange(1 << 30)) for _ in range(120 if quick else 6000)]
+    mols = [(a, t, s) for a, t, s in gi.cases(rnd.randrange(1 << 30), 150 if quick else 15000) if a != "defective_list"]
+    mols += [("molast", mg.molecule()[0], rnd.randrange(1 << 30)) for _ in range(80 if quick else 6000)]
     for a, t, s in mols:
         run("molecule", gbigsmiles.Molecule, dump_mol, t, True, seed=s % 1000)
     # systems
